@@ -51,7 +51,7 @@ func checkC11(a *checkArgs, r *Result) error {
 	defer dp.Close()
 	r.Rule = "arbitrary byte strings for the xz, LZMA2 and classic LZMA readers: byte-level mutations (flip, set, insert, delete, truncate, duplicate, swap) of valid seeds (library-written, liblzma corpus, Lean spec encoder), structure-aware mutants with re-sealed CRC32 (xz), and purely random strings; declared dictionary sizes are kept <= 64 MiB (classic header dictionary field masked, xz dictionary code <= 28). Each input: real reader under recover with a 20 s time-out (oracle: no panic, returns, n <= len(p)) and the Lean model (same accept/reject and delivered prefix). Non-trivial: input passes the 12/13-byte header check of its format (or is an LZMA2 sequence with a valid first control byte); distinct by input bytes."
 	rng := rand.New(rand.NewSource(a.seed))
-	n := 24000
+	n := 80000
 	if a.tier == "thorough" {
 		n = 400000
 	}
